@@ -120,7 +120,12 @@ def _create_files(  # noqa: C901, PLR0912, PLR0913
                 # will be reported per file through on_error below
                 pass
 
+        # NOTE: linking does not replace a file that is already there (and does
+        # not report it either), so what is at such a path afterwards need not
+        # be the entry's data.
         failed: set[str] = set()
+        if state and isinstance(fs, LocalFileSystem):
+            failed.update(p for p in dest_paths if fs.exists(p))
 
         def _onerror(src_path, dest_path, exc, _failed=failed):
             _failed.add(dest_path)
@@ -142,8 +147,8 @@ def _create_files(  # noqa: C901, PLR0912, PLR0913
         if state and isinstance(fs, LocalFileSystem):
             _infos: list[tuple[str, HashInfo, dict]] = []
             for entry, _, dest_path in args:
-                # NOTE: whatever is at a path that could not be created is
-                # not the entry's data.
+                # NOTE: whatever is at a path that could not be (or was not)
+                # created is not the entry's data.
                 if not entry.hash_info or dest_path in failed:
                     continue
                 try:
